@@ -21,6 +21,7 @@ BUDGET = {
     # property: (quick cases, thorough cases)
     'C11': (1500, 40000),
     'C13': (1500, 40000),
+    'C14': (500, 30000),
     'C15': (600, 30000),
     'C17': (1500, 60000),
 }
